@@ -1,5 +1,5 @@
 import BbRe.Properties.C02
-import BbRe.Lemmas.SchedQExistsSync
+import BbRe.Lemmas.SchedQExistsJoin
 /-!
 # C02 (continued) — the residual case of `eventually_done` names the task's own queue
 
@@ -48,5 +48,102 @@ def sQueued : State := run (State.init cfg) [.register 1 [] 7 [0] 0 0, .exec h0 
 example : (sQueued.streams.find? (fun x => x.client = 1)).isSome = true ∧
     ((settle sQueued).task? 1).map (fun t => (t.response.isNone, t.queued, t.scq)) = some (true, true, q) ∧
     ((settle sQueued).scq? q).map (·.mayBeRemoved) = some false := by decide
+
+/-- **A joining worker is served.**  Let `t` be queued (no response, no worker, `queued`) in a reachable
+state `s`.  Then `t ∈ queuedTasks s t.scq`, its queue is registered, and for every worker id `w` that is not
+registered on `t.scq` and matches no drain of `t.scq` (a new worker is never terminating), the
+`Synchronize` arrival segment of `w` on `t.scq` (idle report, not prefer-being-idle, `now ≤ s.now`) with
+*any* oracle hint `h` that names a queued task of `t.scq` (`hfa`, `hft`: the hint's entry for `(t.scq, w)`
+is the lowest operation name of `t'`)
+* returns `.ok`, emits exactly `syncExecute t.scq w t'.digest …`,
+* the chosen `t'` is a queued task of `t.scq` — `t` itself when `t` is the only one, and `t` itself
+  whenever the hint names `t`'s lowest operation (operation names belong to one task), and
+* afterwards `t'` is EXECUTING on `(t.scq, w)` and the worker holds it.
+The hint naming `t` is always admissible (last conjunct), so the residual case of `eventually_done` is
+left as soon as a worker appears. -/
+theorem joining_worker_served {s : State} (hs : Reachable s) {k : Nat} {t : Task} (ht : s.task? k = some t)
+    (hr : t.response = none) (hw : t.worker = none) (hq : t.queued = true) {w : WId}
+    (hfresh : s.worker? t.scq w = none)
+    (hnd : ∀ sq, s.scq? t.scq = some sq → sq.drains.any (fun p => p.matches w) = false)
+    {now : Nat} (hnow : now ≤ s.now) (comps : List Nat) (platform : Nat) :
+    t ∈ queuedTasks s t.scq ∧ (∃ sq, s.scq? t.scq = some sq) ∧
+    (∀ (h : Hints) (a : ScqId × WId × Nat) (t' : Task),
+      h.assign.find? (fun a => a.1 = t.scq ∧ a.2.1 = w) = some a →
+      (queuedTasks s t.scq).find? (fun x => lowestOp x = a.2.2) = some t' →
+      t' ∈ queuedTasks s t.scq ∧ (queuedTasks s t.scq = [t] → t' = t) ∧ (a.2.2 = lowestOp t → t' = t) ∧
+      ∃ s', step s (.sync h now t.scq comps platform w .idle false) = .ok s' ∧
+        s'.events = .syncExecute t.scq w t'.digest (s.now + s.cfg.busyInterval) :: s.events ∧
+        (∃ T, s'.task? t'.id = some T ∧ T.worker = some (t.scq, w) ∧ T.response = none ∧ T.stage = 3 ∧
+          T.digest = t'.digest ∧ T.ops = t'.ops) ∧
+        ∃ W, s'.worker? t.scq w = some W ∧ W.task = some t'.id ∧ W.inSync = false) ∧
+    (∃ a, (⟨[(t.scq, w, lowestOp t)], 0, none, false⟩ : Hints).assign.find? (fun a => a.1 = t.scq ∧ a.2.1 = w) = some a ∧
+      a.2.2 = lowestOp t ∧ (queuedTasks s t.scq).find? (fun x => lowestOp x = a.2.2) = some t) := by
+  have hI := BbRe.Lemmas.SchedInv.inv_reachable hs
+  have hqx := BbRe.Lemmas.SchedQ.qexists_reachable hs
+  have hmem : t ∈ queuedTasks s t.scq := by
+    unfold queuedTasks
+    refine List.mem_map.mpr ⟨(k, t), List.mem_filter.mpr ⟨BbRe.Lemmas.SchedInv.mem_of_alookup ht, ?_⟩, rfl⟩
+    simp [hr, hw, hq]
+  obtain ⟨sq, hsq⟩ := (hasScq_iff _ _).mp (taskOK_of_lookup hqx ht hr).1
+  refine ⟨hmem, ⟨sq, hsq⟩, ?_, ?_⟩
+  · intro h a t' hfa hft
+    have hadm : Admissible h s t.scq w t' := ⟨a, hfa, hft⟩
+    have hm' := hadm.mem
+    refine ⟨hm', ?_, ?_, ?_⟩
+    · intro h1; rw [h1] at hm'; simpa using hm'
+    · intro ha
+      have hp := List.find?_some hft
+      simp only [decide_eq_true_eq, ha] at hp
+      obtain ⟨k', hk', _⟩ := BbRe.Lemmas.SchedInv.mem_queuedTasks hI.core.tnd hm'
+      exact lowestOp_inj hI hk' ht hp
+    · obtain ⟨s', he, hsv⟩ := sync_join_served (comps := comps) (platform := platform) hnow hsq hfresh (hnd sq hsq) hadm
+      exact ⟨s', he, hsv.ev, hsv.tk, hsv.wk⟩
+  · obtain ⟨a, h1, h2⟩ := admissible_self hI w hmem
+    have ha : a = (t.scq, w, lowestOp t) := by simpa using h1.symm
+    exact ⟨a, h1, by rw [ha], h2⟩
+
+/-- non-vacuity: in `sQueued` task 1 is queued on `⟨1, 0⟩`, worker `⟨1, 1⟩` is not registered, nothing is
+drained; the hint naming operation 1 is admissible and the segment hands task 1 (digest 55) to the worker. -/
+example : (sQueued.task? 1).map (fun t => (t.response.isNone, t.worker.isNone, t.queued, t.scq)) =
+      some (true, true, true, q) ∧
+    (sQueued.worker? q w).isNone = true ∧ ((sQueued.scq? q).map (·.drains)) = some [] ∧
+    (match step sQueued (.sync ⟨[(q, w, 1)], 0, none, false⟩ sQueued.now q [] 7 w .idle false) with
+      | .ok s' => (s'.task? 1).map (fun t => (t.worker, t.stage)) == some (some (q, w), 3) &&
+          (match s'.events.head? with | some (.syncExecute _ _ 55 _) => true | _ => false)
+      | .error _ => false) = true := by decide
+
+/-- **eventually_done, once a worker joins.**  After the settling schedule every parked stream either gets
+`done` on its stage-change wake-up, or its task `t` is queued on its own, still registered queue, and then
+for every worker id `w` matching no drain of that queue (no worker is registered after `settle`), the
+`Synchronize` arrival of `w` on `t.scq` with the hint naming `t` succeeds, tells `w` to execute `t`, and
+`t` is EXECUTING on `(t.scq, w)` afterwards — from where `C02.eventually_done_executing` applies. -/
+theorem eventually_done_when_worker_joins {s : State} (hs : Reachable s) {c : Nat} {st : Stream}
+    (hst : s.streams.find? (fun x => x.client = c) = some st) :
+    ∃ op t, (settle s).op? st.op = some op ∧ (settle s).task? op.task = some t ∧
+      ((∃ r, t.response = some r ∧
+          (run (settle s) [.streamWake qh (settle s).now c 0]).events =
+            .ret c cOK :: .msg c st.op 4 true r.code r.tok :: (settle s).events) ∨
+       (t.response = none ∧ t.worker = none ∧ t.queued = true ∧
+        ∀ (w : WId) (comps : List Nat) (platform : Nat),
+          (∀ sq, (settle s).scq? t.scq = some sq → sq.drains.any (fun p => p.matches w) = false) →
+          ∃ s', step (settle s) (.sync ⟨[(t.scq, w, lowestOp t)], 0, none, false⟩ (settle s).now t.scq comps
+              platform w .idle false) = .ok s' ∧ Reachable s' ∧
+            s'.events = .syncExecute t.scq w t.digest ((settle s).now + (settle s).cfg.busyInterval) ::
+              (settle s).events ∧
+            (∃ T, s'.task? t.id = some T ∧ T.worker = some (t.scq, w) ∧ T.response = none ∧ T.stage = 3) ∧
+            ∃ W, s'.worker? t.scq w = some W ∧ W.task = some t.id ∧ W.inSync = false)) := by
+  obtain ⟨hr, hw, _, _, op, t, hop, ht, hcase⟩ := eventually_done_own_queue hs hst
+  refine ⟨op, t, hop, ht, ?_⟩
+  rcases hcase with h1 | ⟨h1, h2, h3, _⟩
+  · exact Or.inl h1
+  · refine Or.inr ⟨h1, h2, h3, ?_⟩
+    intro w comps platform hnd
+    have hfresh : (settle s).worker? t.scq w = none := by
+      show BbRe.Lemmas.SchedInv.wfind (settle s).workers t.scq w = none
+      rw [hw]; rfl
+    obtain ⟨_, _, hall, a, hfa, ha, hft⟩ :=
+      joining_worker_served hr ht h1 h2 h3 hfresh hnd (Nat.le_refl _) comps platform
+    obtain ⟨_, _, _, s', he, hev, ⟨T, hT1, hT2, hT3, hT4, _⟩, hW⟩ := hall _ a t hfa hft
+    exact ⟨s', he, Reachable.step _ hr he, hev, ⟨T, hT1, hT2, hT3, hT4⟩, hW⟩
 
 end BbRe.Properties.C02Queues
